@@ -37,7 +37,11 @@ func runC17(c *fw.Ctx) {
 	// every 83rd case is a big trie (several hundred nodes): repairs then move more nodes than any batch size in the
 	// store layer
 	fat := c.Idx%83 == 7
-	for v := 1; v <= nver; v++ {
+	v0 := r.Intn(2) // half of the tries start at version 0 (genesis nodes carry origin 0)
+	if v0 == 0 {
+		c.Count("tries_built_from_version_0", 1)
+	}
+	for v := v0; v <= nver; v++ {
 		m := lab.NewMPT(full, int64(v), root)
 		nops := 2 + r.Intn(6)
 		if fat {
@@ -617,7 +621,7 @@ func init() {
 			return 4800
 		},
 		Run:    runC17,
-		Floors: map[string]int64{"fat_tries": 50, "removal_sets_above_256_nodes": 35, "store_level_repairs": 15000, "store_level_repairs_into_the_lower_level": 2000, "store_level_repairs_from_a_persistent_donor": 3000, "syncs_after_a_local_delete": 3000, "handles_with_history_synced_back": 5000, "handles_with_history_synced_back_over_real_deletions": 2000, "tries": 3000, "removal_sets": 50000, "removal:single": 30000, "removal:subtree": 9000, "removal:scattered": 12000, "blocked_lookups": 50000, "repairs_with_foreign_origin": 20000, "tries_with_mixed_origins": 1000, "warm_cache_repairs": 10000, "repaired_child_merged_into_parent": 8000, "synced_state_saved_and_reread": 8000, "repairs_from_layered_donor": 8000},
+		Floors: map[string]int64{"fat_tries": 50, "removal_sets_above_256_nodes": 35, "store_level_repairs": 15000, "store_level_repairs_into_the_lower_level": 2000, "store_level_repairs_from_a_persistent_donor": 3000, "syncs_after_a_local_delete": 3000, "tries_built_from_version_0": 1500, "handles_with_history_synced_back": 5000, "handles_with_history_synced_back_over_real_deletions": 2000, "tries": 3000, "removal_sets": 50000, "removal:single": 30000, "removal:subtree": 9000, "removal:scattered": 12000, "blocked_lookups": 50000, "repairs_with_foreign_origin": 20000, "tries_with_mixed_origins": 1000, "warm_cache_repairs": 10000, "repaired_child_merged_into_parent": 8000, "synced_state_saved_and_reread": 8000, "repairs_from_layered_donor": 8000},
 		Assumptions: []string{
 			"the donor is a MemoryNodeDB (map iteration order = arbitrary repair order)",
 			"single-node removals are exhaustive up to 24 nodes per trie; other subsets are sampled",
